@@ -12,6 +12,7 @@ import (
 	"strings"
 
 	"golang.org/x/tools/go/ssa"
+	"golang.org/x/tools/go/ssa/ssautil"
 )
 
 var debugTrace = os.Getenv("MBTRACE") != ""
@@ -1472,6 +1473,25 @@ func (f *Frame) loadPath(o *Obj, path string, t types.Type, at ssa.Instruction) 
 		return f.an.u.symbolic(o.key+f.pathNames(o, path), t)
 	}
 	if o.escaped {
+		if v, ok := f.capturedConstant(o, path, at); ok {
+			return v
+		}
+		if st, isStruct := t.Underlying().(*types.Struct); isStruct && path == "" && o.alloc != nil {
+			// a whole-struct load: field by field, so that fields that cannot have changed since
+			// construction keep their value
+			known := false
+			fs := make([]AV, st.NumFields())
+			for i := range fs {
+				if v, ok := f.capturedConstant(o, pathStr(path, i), at); ok {
+					fs[i], known = v, true
+				} else {
+					fs[i] = f.an.u.symbolic(f.key+"esc:"+o.key+path+"."+st.Field(i).Name(), st.Field(i).Type())
+				}
+			}
+			if known {
+				return AStructLit{typ: t, fields: fs}
+			}
+		}
 		return f.an.u.symbolic(f.key+"esc:"+o.key+path, t)
 	}
 	// exact path
@@ -2176,4 +2196,196 @@ func passesBetween(a, s ssa.Instruction) bool {
 		}
 	}
 	return true
+}
+
+// capturedConstant: a variable that escapes only because closures capture it (Go spills a
+// captured parameter or local into a heap cell: `t0 = new T (x); *t0 = x`) still has a known
+// value where it is assigned exactly once, before the load, and neither the function nor any
+// closure that captures the cell ever stores to it again or hands its address on.
+func (f *Frame) capturedConstant(o *Obj, path string, at ssa.Instruction) (AV, bool) {
+	if o.alloc == nil || at == nil || o.alloc.Parent() != at.Parent() {
+		return nil, false
+	}
+	if path != "" {
+		return f.immutableFieldOfEscaped(o, path, at)
+	}
+	switch deref(o.alloc.Type()).Underlying().(type) {
+	case *types.Struct, *types.Array:
+		return nil, false // only single-word cells; aggregates are written field by field
+	}
+	recs := o.stores[""]
+	if len(recs) == 0 {
+		return nil, false
+	}
+	var only *ssa.Store
+	var readOnly func(v ssa.Value, depth int) bool
+	readOnly = func(v ssa.Value, depth int) bool {
+		refs := v.Referrers()
+		if refs == nil || depth > 4 {
+			return depth <= 4
+		}
+		for _, r := range *refs {
+			switch x := r.(type) {
+			case *ssa.UnOp:
+				if x.Op != token.MUL {
+					return false
+				}
+			case *ssa.DebugRef:
+			case *ssa.Store:
+				if x.Addr != v {
+					return false // the cell's address is stored somewhere
+				}
+				if _, isAlloc := v.(*ssa.Alloc); !isAlloc || only != nil && only != x {
+					return false
+				}
+				only = x
+			case *ssa.MakeClosure:
+				fn, ok := x.Fn.(*ssa.Function)
+				if !ok {
+					return false
+				}
+				for i, b := range x.Bindings {
+					if b == v {
+						if i >= len(fn.FreeVars) || !readOnly(fn.FreeVars[i], depth+1) {
+							return false
+						}
+					}
+				}
+			default:
+				return false
+			}
+		}
+		return true
+	}
+	if !readOnly(o.alloc, 0) || only == nil || !instrBefore(only, at) {
+		return nil, false
+	}
+	// the value recorded for that store in this frame (latest pass)
+	var val AV
+	seq := -1
+	for _, rc := range recs {
+		if rc.instr == ssa.Instruction(only) && rc.frame == f && rc.seq > seq {
+			val, seq = rc.val, rc.seq
+		}
+	}
+	if val == nil {
+		return nil, false
+	}
+	return val, true
+}
+
+// immutableFieldOfEscaped: field k of a struct cell that escapes (deferred method call, closure)
+// still has the value it was constructed with when (1) the cell is assigned as a whole exactly
+// once, before the load, (2) nowhere in the module is field k of that struct type stored to
+// except while building a composite literal in a local temporary, its address is never taken
+// for anything but a load, and no whole value of the type is stored through a pointer that is
+// not a local cell (type-based: whoever gets hold of the cell can only reach the field through
+// such instructions; the library uses neither unsafe nor reflect — asserted at load).
+func (f *Frame) immutableFieldOfEscaped(o *Obj, path string, at ssa.Instruction) (AV, bool) {
+	var k int
+	if n, err := fmt.Sscanf(path, ".%d", &k); n != 1 || err != nil || strings.Count(path, ".") != 1 {
+		return nil, false
+	}
+	T := deref(o.alloc.Type())
+	st, ok := T.Underlying().(*types.Struct)
+	if !ok || k >= st.NumFields() || !f.an.ctx.fieldImmutable(T, k) {
+		return nil, false
+	}
+	var only *ssa.Store
+	whole := false
+	n := 0
+	if refs := o.alloc.Referrers(); refs != nil {
+		for _, r := range *refs {
+			switch x := r.(type) {
+			case *ssa.Store:
+				if x.Addr == ssa.Value(o.alloc) {
+					only, whole = x, true
+					n++
+				}
+			case *ssa.FieldAddr:
+				if x.Field != k || x.Referrers() == nil {
+					continue
+				}
+				for _, fr := range *x.Referrers() {
+					if st, ok := fr.(*ssa.Store); ok && st.Addr == ssa.Value(x) {
+						only, whole = st, false
+						n++
+					}
+				}
+			}
+		}
+	}
+	if n != 1 || !instrBefore(only, at) {
+		return nil, false
+	}
+	key := path
+	if whole {
+		key = ""
+	}
+	var val AV
+	seq := -1
+	for _, rc := range o.stores[key] {
+		if rc.instr == ssa.Instruction(only) && rc.frame == f && rc.seq > seq {
+			val, seq = rc.val, rc.seq
+		}
+	}
+	if val == nil {
+		return nil, false
+	}
+	if whole {
+		return f.an.u.fieldOf(val, k), true
+	}
+	return val, true
+}
+
+// fieldImmutable: see immutableFieldOfEscaped, condition (2). Cached per (type, field).
+func (c *Ctx) fieldImmutable(T types.Type, k int) bool {
+	key := fmt.Sprintf("%s#%d", T.String(), k)
+	if c.immutable == nil {
+		c.immutable = map[string]bool{}
+	}
+	if v, ok := c.immutable[key]; ok {
+		return v
+	}
+	res := true
+	for fn := range ssautil.AllFunctions(c.prog) {
+		if !c.inModule(fn) {
+			continue
+		}
+		for _, b := range fn.Blocks {
+			for _, in := range b.Instrs {
+				switch x := in.(type) {
+				case *ssa.FieldAddr:
+					if x.Field != k || !types.Identical(deref(x.X.Type()), T) || x.Referrers() == nil {
+						continue
+					}
+					for _, r := range *x.Referrers() {
+						switch y := r.(type) {
+						case *ssa.UnOp:
+							if y.Op != token.MUL {
+								res = false
+							}
+						case *ssa.DebugRef:
+						case *ssa.Store:
+							// construction of a cell the storing function itself allocates
+							_, isAlloc := x.X.(*ssa.Alloc)
+							if y.Addr != ssa.Value(x) || !isAlloc {
+								res = false
+							}
+						default:
+							res = false
+						}
+					}
+				case *ssa.Store:
+					if types.Identical(deref(x.Addr.Type()), T) {
+						if _, isAlloc := x.Addr.(*ssa.Alloc); !isAlloc {
+							res = false
+						}
+					}
+				}
+			}
+		}
+	}
+	c.immutable[key] = res
+	return res
 }
